@@ -16,4 +16,8 @@ theorem deliverer_discipline :
     (run inside PROPOSAL_FINALIZE, which never fails after they ran) -/
 theorem volatile_setters_as_classified : OLP.Gen.volatileSets = volatileSets := by decide
 
+/-- the ABCI entry points the shell model ports are unchanged since the port was validated -/
+theorem entry_points_source_pinned :
+    OLP.Expect.pinnedOf OLP.Gen.pinned (pinnedShell.map (fun r => r.fn)) = pinnedShell := by decide
+
 end OLP.Props.C06.Facts
